@@ -727,12 +727,14 @@ func (g *FnGen) typeAssert(i *ssa.TypeAssert) {
 		g.assume(fmt.Sprintf("(= %s (ite %s %s %s))", vc, okc, val, g.zero(at).T))
 		v0 := Val{T: vc, S: vs, GT: at}
 		g.assumeHere(fmt.Sprintf("(=> %s %s)", okc, g.typeFacts(v0, at)))
+		g.refFacts(v0, at) // a reference carried by an interface value was allocated before now
 		g.vals[i] = Val{S: "Tuple", GT: i.Type(), Tuple: []Val{v0, {T: okc, S: "Bool", GT: types.Typ[types.Bool]}}}
 		return
 	}
 	g.safety("typeassert", ok, "type assertion holds", i.Pos())
 	r := g.define(i, val, vs)
 	g.assumeHere(g.typeFacts(r, at))
+	g.refFacts(r, at)
 }
 
 func (g *FnGen) implementsFacts(pred string, iface types.Type) {
